@@ -23,7 +23,6 @@ import (
 	"github.com/influxdata/kapacitor"
 	"github.com/influxdata/kapacitor/alert"
 	alertservice "github.com/influxdata/kapacitor/services/alert"
-	"github.com/influxdata/kapacitor/services/storage"
 	bolt "go.etcd.io/bbolt"
 
 	"verifharness/core"
@@ -68,76 +67,6 @@ func (prop) Cases(tier string, seed uint64) []core.Case {
 }
 
 var t0 = time.Unix(1600000000, 0).UTC()
-
-// ---- harness-owned storage service -----------------------------------------------------------
-
-type snapInfo struct {
-	k     int
-	point int32
-	path  string
-}
-
-type snapStorage struct {
-	db       *bolt.DB
-	path     string
-	snapDir  string // "" = no snapshots
-	cur      *int32
-	mu       sync.Mutex
-	commits  int
-	snaps    []snapInfo
-	versions storage.Versions
-	reg      *storage.StoreActionerRegistrar
-}
-
-func openStorage(path, snapDir string, cur *int32) (*snapStorage, error) {
-	db, err := bolt.Open(path, 0600, &bolt.Options{Timeout: 2 * time.Second, NoSync: true})
-	if err != nil {
-		return nil, err
-	}
-	s := &snapStorage{db: db, path: path, snapDir: snapDir, cur: cur, reg: storage.NewStorageRegistrar()}
-	s.versions = storage.NewVersions(storage.NewBolt(db, []byte("versions")))
-	return s, nil
-}
-
-func (s *snapStorage) Store(ns string) storage.Interface {
-	return &snapStore{inner: storage.NewBolt(s.db, []byte(ns)), s: s}
-}
-func (s *snapStorage) Register(name string, store storage.StoreActioner) { s.reg.Register(name, store) }
-func (s *snapStorage) Versions() storage.Versions                        { return s.versions }
-func (s *snapStorage) Diagnostic() storage.Diagnostic                    { return kit.DiagService().NewStorageHandler() }
-func (s *snapStorage) Path() string                                      { return s.path }
-func (s *snapStorage) CloseBolt() error                                  { return s.db.Close() }
-
-func (s *snapStorage) committed() {
-	if s.snapDir == "" {
-		return
-	}
-	s.mu.Lock()
-	defer s.mu.Unlock()
-	s.commits++
-	p := filepath.Join(s.snapDir, fmt.Sprintf("snap-%d.db", s.commits))
-	err := s.db.View(func(tx *bolt.Tx) error { return tx.CopyFile(p, 0600) })
-	if err == nil {
-		s.snaps = append(s.snaps, snapInfo{k: s.commits, point: atomic.LoadInt32(s.cur), path: p})
-	}
-}
-
-type snapStore struct {
-	inner *storage.Bolt
-	s     *snapStorage
-}
-
-func (st *snapStore) View(fn func(storage.ReadOnlyTx) error) error { return st.inner.View(fn) }
-func (st *snapStore) Store(b ...[]byte) storage.Interface {
-	return st.inner.Store(b...)
-}
-func (st *snapStore) Update(fn func(storage.Tx) error) error {
-	err := st.inner.Update(fn)
-	if err == nil {
-		st.s.committed()
-	}
-	return err
-}
 
 // diskStates reads topic -> id -> level straight from a Bolt file.
 func diskStates(path string) (map[string]map[string]alert.Level, error) {
@@ -278,14 +207,14 @@ type runResult struct {
 	toldT    []told                            // recorder on the named topic
 	toldAnon []told                            // log handler on the anonymous topic
 	restored map[string]map[string]alert.Level
-	snaps    []snapInfo
+	snaps    []kit.SnapInfo
 	anonName string
 }
 
 // run drives points[from:] through a fresh stack on the Bolt file at dbPath.
 func run(x *core.Ctx, sc scenario, dbPath, snapDir, logPath string, from int) (res runResult, ok bool) {
 	var cur int32 = -1
-	ss, err := openStorage(dbPath, snapDir, &cur)
+	ss, err := kit.OpenBoltStorage(dbPath, snapDir, &cur)
 	if err != nil {
 		x.Inconclusive(err.Error())
 		return res, false
@@ -384,9 +313,7 @@ func run(x *core.Ctx, sc scenario, dbPath, snapDir, logPath string, from int) (r
 	}
 	res.toldT = rec.snapshot()
 	res.toldAnon = readLog(logPath)
-	ss.mu.Lock()
-	res.snaps = append([]snapInfo{}, ss.snaps...)
-	ss.mu.Unlock()
+	res.snaps = ss.Snaps()
 	return res, true
 }
 
@@ -467,14 +394,14 @@ func (prop) Run(x *core.Ctx) {
 	// crash points: right after commit k while its point is still in flight, and - the file being
 	// the same - later, while the point that will cause commit k+1 is in flight (notified, not stored)
 	type crash struct {
-		sn       snapInfo
+		sn       kit.SnapInfo
 		inflight int
 	}
 	var crashes []crash
 	for idx, sn := range U.snaps {
-		crashes = append(crashes, crash{sn, int(sn.point)})
-		if idx+1 < len(U.snaps) && U.snaps[idx+1].point > sn.point {
-			crashes = append(crashes, crash{sn, int(U.snaps[idx+1].point)})
+		crashes = append(crashes, crash{sn, int(sn.Point)})
+		if idx+1 < len(U.snaps) && U.snaps[idx+1].Point > sn.Point {
+			crashes = append(crashes, crash{sn, int(U.snaps[idx+1].Point)})
 		}
 	}
 	x.Count("crash_points", int64(len(crashes)))
@@ -489,8 +416,8 @@ CRASHES:
 			continue
 		}
 		inflight := sc.pts[i].id
-		where := fmt.Sprintf("crash after commit %d (made during point %d) with point %d in flight: %s=%v", sn.k, sn.point, i, inflight, levelOf(sc.pts[i].v))
-		disk, err := diskStates(sn.path)
+		where := fmt.Sprintf("crash after commit %d (made during point %d) with point %d in flight: %s=%v", sn.K, sn.Point, i, inflight, levelOf(sc.pts[i].v))
+		disk, err := diskStates(sn.Path)
 		if err != nil {
 			fail("disk-unreadable", "stored topic state cannot be read back", "%s: %v", where, err)
 			return
@@ -524,12 +451,12 @@ CRASHES:
 			}
 		}
 		// restart on a copy
-		work := filepath.Join(scratch, fmt.Sprintf("r-%d-%d.db", sn.k, i))
-		if err := copyFile(sn.path, work); err != nil {
+		work := filepath.Join(scratch, fmt.Sprintf("r-%d-%d.db", sn.K, i))
+		if err := copyFile(sn.Path, work); err != nil {
 			x.Inconclusive(err.Error())
 			return
 		}
-		logPath := filepath.Join(scratch, fmt.Sprintf("r-%d-%d.log", sn.k, i))
+		logPath := filepath.Join(scratch, fmt.Sprintf("r-%d-%d.log", sn.K, i))
 		R, ok := run(x, sc, work, "", logPath, i+1)
 		os.Remove(work)
 		if !ok {
@@ -709,7 +636,7 @@ CRASHES:
 			}
 		}
 		if changed && otherNonOK {
-			x.Nontrivial(fmt.Sprintf("%v|%v|%v|%v|%d|%s", sc.named, sc.anon, sc.stateChangesOnly, sc.noRecoveries, sn.k%7, sigOf(sc, i)))
+			x.Nontrivial(fmt.Sprintf("%v|%v|%v|%v|%d|%s", sc.named, sc.anon, sc.stateChangesOnly, sc.noRecoveries, sn.K%7, sigOf(sc, i)))
 		}
 	}
 }
